@@ -3,12 +3,20 @@ C10 -- reported name usage is exact; parsing is independent of parse history.
 
 ENUM: for every string of the token families the variable / function / suffix sets
 reported by parse() and by evaluator()[1] are compared with the sets the reference
-parser derives by construction.
+parser derives by construction; for generated derivations (a name at a known position,
+used as a known kind) with the sets the generator knows without any parser.  Every
+accepted string is also pushed through the consumers of the names: the scope check (each
+kind of name in turn defined only as the OTHER kinds must be refused under the right
+kind), get_used_vars (alone, among blank entries, and in pairs), DependentSampler.
 BFS: the shared parser (a fresh MathParser installed as expressions.PARSER for every
 history) is driven through every sequence of parse / evaluate / consumer calls over a
 string alphabet that includes malformed strings, to closure of its canonical state;
 every observation is compared with what a brand-new parser gives for the same call and
-every cached expression's sets with the by-construction sets.
+every cached expression's sets with the by-construction sets.  Separate small searches
+(own alphabets, so that no product is explored) cover grading, evaluation scopes that
+differ in exactly one respect (values / function objects / suffix multipliers / kinds /
+defaults / array limit), and consumers that combine the names of several strings
+(SumGrader limits + summand, expression lists, dependent samplers).
 """
 import itertools
 import math
@@ -21,22 +29,29 @@ from .. import libstate
 import mitxgraders.helpers.calc.expressions as X
 from mitxgraders.helpers.calc import exceptions as CE
 from mitxgraders.exceptions import MITxError
-from mitxgraders import FormulaGrader, MatrixGrader, DependentSampler
+from mitxgraders import FormulaGrader, MatrixGrader, DependentSampler, SumGrader
 
 EXTRA_HASH_SEEDS = {'thorough': ('1',)}           # name sets: their iteration order feeds messages and sampling order
 PROPERTY = 'C10'
-RULE = ('ENUM: every concatenation of tokens up to a length bound over alphabets rich in confusable names; '
-        'non-trivial = string in the language with at least one name or suffix. BFS: all call histories over '
+RULE = ('ENUM: every concatenation of tokens up to a length bound over alphabets rich in confusable names, number '
+        'spellings and operators; every single term and pair of terms of a derivation generator with by-construction name '
+        'sets; non-trivial = string in the language with at least one name or suffix. BFS: all call histories over '
         '(operation x string) events on one shared parser to closure; state = cache keys with their three '
         'sets + scratch sets')
 EXPLANATION = ('states = distinct strings (ENUM) / distinct canonical parser states (BFS); transitions = real '
                'parse/evaluator/grader calls; the implementation itself is explored, no separate model')
 ASSUMPTIONS = ['name sets by construction come from the reference parser mcv/refs/expr.py',
                'parser state that matters = cache contents + the three scratch sets (+ max_array_dim_used)',
-               'pyparsing internal memoisation is not enabled by the library (packrat off)']
+               'pyparsing internal memoisation is not enabled by the library (packrat off)',
+               'an undefined number suffix is reported with the error class of an undefined function (as the reference '
+               'model mcv/refs/expr.py states); error wording is not constrained beyond naming every offending name in quotes',
+               'IntegralGrader is not driven (scipy is absent from the environment); SumGrader shares its name-combining code']
 
 NAME_TOKENS = ['2', 'x', 'y', 'f', 'e', 'k', '_', "'", '+', '*', '^', '-', '(', ')', '[', ']', ',']
 BRACE_TOKENS = ['a', 'b', '1', '_{', '^{', '}', "'", '+', '(', ')', '-', '_']
+# numbers in every spelling (decimal point, e/E exponents, percent and letter suffixes) next to the operators and the
+# separators the other alphabets lack: division, the two-character parallel operator, the em-dash minus, a tab
+OPERATOR_TOKENS = ['2', '.', 'e', 'E', '%', 'k', 'x', '+', '-', '\u2014', '/', '|', '\t']
 
 
 def sets_of(parsed):
@@ -86,13 +101,22 @@ class NameSets(Family):
         return judge_names(self, s)
 
 
-def judge_names(fam, s):
+def judge_names(fam, s, constructed=None):
+    """constructed: the (variables, functions, suffixes) a generated derivation has by construction; they then replace
+    the sets of the reference parser as the expectation (the reference parser must agree: anything else is a defect of
+    the generator or of the reference, a harness error)"""
     fam.n += 1
     if fam.n % 20000 == 0:
         X.PARSER = X.MathParser()
     try:
         ast, rv, rf, rs = R.parse(s)
+        if constructed is not None:
+            if (rv, rf, rs) != tuple(constructed):
+                raise HarnessError('derivation %r: by construction %r, reference parser %r' % (s, constructed, (rv, rf, rs)))
+            rv, rf, rs = constructed
     except R.RefParseError:
+        if constructed is not None:
+            raise HarnessError('derivation %r is rejected by the reference parser' % s)
         try:
             X.parse(s)
         except (CE.UnableToParse, CE.UnbalancedBrackets):
@@ -129,22 +153,85 @@ def judge_names(fam, s):
         pass        # arithmetic / shape errors: no metadata to compare
     except Exception as e:
         pass        # raw failures on odd array arithmetic are C02's business
-    # consumer: the variables a grader collects from a list of expressions (numbered / sibling variable discovery)
+    # consumer: the variables a grader collects from a list of expressions (numbered / sibling variable discovery);
+    # blank entries of every documented kind (None, empty, spaces only, other whitespace only) are skipped
     try:
-        used = set(FormulaGrader.get_used_vars([s, '']))
+        used = set(FormulaGrader.get_used_vars([None, s, '', '  ', '\t']))
     except Exception as e:
         return Result('consumer-raised', nontriv, viol('names:get_used_vars-raises', 'get_used_vars([%r]) raised %r' % (s, e)), 3)
     if used != rv:
         return Result('wrong-sets', nontriv,
                       viol('names:get_used_vars-differs', 'get_used_vars([%r]) = %r, expected %r' % (s, sorted(used), sorted(rv)),
                            sorted(rv), sorted(used)), 3)
+    calls = 3
+    if nontriv:
+        v, n = judge_consumers(s, rv, rf, rs, getattr(fam, 'all_depends_spellings', False))
+        calls += n
+        if v is not None:
+            return Result('consumer-wrong', True, v, calls)
     # the object returned for an accepted string must keep its sets when the parser is used again
     X.parse('q_1+g(2z)')
     if sets_of(p) != exp:
         return Result('aliased', nontriv,
                       viol('names:sets-change-after-later-parse',
                            'sets of parse(%r) changed after parsing another string: %r' % (s, [sorted(x) for x in sets_of(p)])))
-    return Result('v%d f%d s%d' % (len(rv), len(rf), len(rs)), nontriv, None, 3)
+    return Result('v%d f%d s%d' % (len(rv), len(rf), len(rs)), nontriv, None, calls)
+
+
+KINDS = (('variable', 0, CE.UndefinedVariable), ('function', 1, CE.UndefinedFunction), ('suffix', 2, CE.UndefinedFunction))
+
+
+def judge_consumers(s, rv, rf, rs, all_spellings=False):
+    """
+    The reported names under the kind they were used as, seen through their consumers:
+      * the scope check: for each kind in turn, a scope in which the names used as that kind are absent from the
+        dictionary of that kind but present in BOTH other dictionaries (and every other name is present everywhere)
+        must be refused with the error of that kind, naming every one of them;
+      * DependentSampler: the inferred dependencies are exactly the variables (whatever was passed as `depends`:
+        documented as ignored).
+    Returns (violation or None, number of calls).
+    """
+    sets3 = (rv, rf, rs)
+    allnames = rv | rf | rs
+    calls = 0
+    for kind, k, exc in KINDS:
+        missing = sets3[k]
+        if not missing:
+            continue
+        scope = []
+        for j in range(3):
+            names = allnames if j != k else (allnames - missing)
+            scope.append({n: (anyfunc if j == 1 else 1.5) for n in names})
+        calls += 1
+        try:
+            X.evaluator(s, scope[0], scope[1], scope[2])
+        except exc as e:
+            msg = str(e)
+            absent = [n for n in sorted(missing) if ("'%s'" % n) not in msg]
+            if absent:
+                return viol('names:scope-error-omits-name',
+                            'evaluator(%r) with the %s name(s) %r undefined: the error %r does not name %r'
+                            % (s, kind, sorted(missing), msg, absent)), calls
+            continue
+        except Exception as e:
+            return viol('names:scope-check-wrong-kind',
+                        'evaluator(%r) with %r defined as everything but a %s raised %s(%s), expected %s'
+                        % (s, sorted(missing), kind, type(e).__name__, e, exc.__name__)), calls
+        return viol('names:scope-check-passes-wrong-kind',
+                    'evaluator(%r) succeeded although %r are not defined as %s (only as the other kinds)'
+                    % (s, sorted(missing), kind)), calls
+    for given in ((None, [], ['zz']) if all_spellings else (None,)):
+        calls += 1
+        try:
+            d = DependentSampler(formula=s) if given is None else DependentSampler(depends=list(given), formula=s)
+            dep = d.config['depends']
+        except Exception as e:
+            return viol('names:dependent-sampler-raises', 'DependentSampler(depends=%r, formula=%r) raised %r' % (given, s, e)), calls
+        if sorted(dep) != sorted(rv):
+            return viol('names:dependent-sampler-depends-differ',
+                        'DependentSampler(depends=%r, formula=%r) depends on %r, the variables are %r'
+                        % (given, s, sorted(dep), sorted(rv)), sorted(rv), sorted(dep)), calls
+    return None, calls
 
 
 EXTRA = ['a', 'ab', 'a_b', 'a+ab', 'ab+a', 'sin', 'sin+sin(x)', 'x(2)+x', "x'", "x''", "x'+x''+x", 'a_{1}', 'a_{1}^{2}',
@@ -156,6 +243,7 @@ EXTRA = ['a', 'ab', 'a_b', 'a+ab', 'ab+a', 'sin', 'sin+sin(x)', 'x(2)+x', "x'", 
 
 class ExtraNames(Family):
     name = 'confusable_names'
+    all_depends_spellings = True       # DependentSampler also with depends=[] and depends=[an unrelated name]
     rule = 'a fixed table of %d confusable-name strings, each alone and joined pairwise with + and *' % len(EXTRA)
 
     def setup(self, tier):
@@ -178,13 +266,119 @@ class ExtraNames(Family):
         return EXTRA[case[0]] + '+*'[case[2]] + EXTRA[case[1]]
 
     def check(self, case):
-        return judge_names(self, self.describe(case))
+        res = judge_names(self, self.describe(case))
+        if len(case) == 3 and res.violation is None:
+            v = judge_collection(EXTRA[case[0]], EXTRA[case[1]])
+            if v is not None:
+                return Result('collection-wrong', True, v, res.calls + 3)
+        return res
+
+
+def judge_collection(s1, s2):
+    """
+    The variables a grader collects from SEVERAL expressions at once are the union of the variables of each (unparseable
+    members: the error; not judged here), and collecting leaves the sets of every member's parsed expression untouched.
+    """
+    try:
+        _, v1, f1, x1 = R.parse(s1)
+        _, v2, f2, x2 = R.parse(s2)
+    except R.RefParseError:
+        return None
+    p1, p2 = X.parse(s1), X.parse(s2)
+    try:
+        used = FormulaGrader.get_used_vars([s1, s2])
+        used_d = FormulaGrader.get_used_vars({'a': s2, 'b': s1}.values())
+    except Exception as e:
+        return viol('names:get_used_vars-raises', 'get_used_vars([%r, %r]) raised %r' % (s1, s2, e))
+    if set(used) != (v1 | v2) or set(used_d) != (v1 | v2):
+        return viol('names:get_used_vars-differs', 'get_used_vars([%r, %r]) = %r / reversed %r, expected %r'
+                    % (s1, s2, sorted(used), sorted(used_d), sorted(v1 | v2)), sorted(v1 | v2), sorted(used))
+    if sets_of(p1) != (v1, f1, x1) or sets_of(p2) != (v2, f2, x2) or sets_of(X.parse(s1)) != (v1, f1, x1) \
+            or sets_of(X.parse(s2)) != (v2, f2, x2):
+        return viol('names:sets-change-after-collection',
+                    'after get_used_vars([%r, %r]) the parsed expressions report %r and %r'
+                    % (s1, s2, [sorted(x) for x in sets_of(X.parse(s1))], [sorted(x) for x in sets_of(X.parse(s2))]))
+    return None
+
+
+# --------------------------------------------------------------------------- generated derivations
+
+# where a name can occur: every wrapper is a derivation of the grammar around one atom A (none begins with a digit or a sign, so
+# that an atom ending in a suffix letter e/E in front of it can never turn into an exponent)
+POSITIONS = [('top', '%s', None), ('parenthesised', '(%s)', None), ('argument', 'g(%s)', 'g'), ('second argument', 'g(1,%s)', 'g'),
+             ('array entry', '[1,%s]', None), ('nested array entry', '[[%s,1],[2,3]]', None), ('exponent', '(2)^%s', None),
+             ('negative exponent', '(2)^-%s', None), ('base', '%s^2', None), ('denominator', '(1)/%s', None),
+             ('parallel operand', '(1)||%s', None), ('after a tab', '(1)*\t%s', None)]
+ATOM_KINDS = [('variable', '%s'), ('function', '%s(1)'), ('suffix', '3%s')]
+# names confusable with each other, with the wrapper function g, with functions / constants of the library and with exponents
+DERIV_NAMES = ['a', 'ab', 'g', 'e', 'E', 'a_b', "a'", 'a_{1}^{2}', 'sin']
+DERIV_SUFFIXES = ['a', 'ab', 'g', 'e', 'E', 'k', '%', 'ea', 'sin']        # a suffix is letters / percent signs only
+JOINS = ['+', '*', '-', '/']
+
+
+def deriv_term(pos, kind, name_index):
+    """(text, variables, functions, suffixes) of one term, by construction"""
+    _, wrapper, extra_func = POSITIONS[pos]
+    name = (DERIV_SUFFIXES if kind == 2 else DERIV_NAMES)[name_index]
+    sets3 = [set(), set(), set()]
+    sets3[kind].add(name)
+    if extra_func:
+        sets3[1].add(extra_func)
+    return (wrapper % (ATOM_KINDS[kind][1] % name),) + tuple(sets3)
+
+
+class Derivations(Family):
+    name = 'derivations'
+    timeout = 20.0
+    rule = ('generated derivations whose name sets are known BY CONSTRUCTION (not from the reference parser): one term = a name '
+            'from %r (suffixes: %r) used as variable / called function / number suffix at one of %d positions %r; every single '
+            'term, and every pair of terms joined by + * - / (quick: first name a, second a or ab; thorough: all name pairs); '
+            'same judgement as the token families' % (DERIV_NAMES, DERIV_SUFFIXES, len(POSITIONS), [p[0] for p in POSITIONS]))
+
+    def setup(self, tier):
+        self.n = 0
+
+    def isolate(self):
+        X.PARSER = X.MathParser()
+
+    def cases(self, tier):
+        P, K, N = range(len(POSITIONS)), range(3), range(len(DERIV_NAMES))
+        for p in P:
+            for k in K:
+                for n in N:
+                    yield (p, k, n)
+        n1s, n2s = ((0,), (0, 1)) if tier == 'quick' else (N, N)
+        j = 0
+        for p1 in P:
+            for k1 in K:
+                for n1 in n1s:
+                    for p2 in P:
+                        for k2 in K:
+                            for n2 in n2s:
+                                j += 1
+                                yield (p1, k1, n1, p2, k2, n2, j % len(JOINS))
+
+    def build(self, case):
+        case = tuple(case)
+        t1 = deriv_term(*case[:3])
+        if len(case) == 3:
+            return t1[0], t1[1:]
+        t2 = deriv_term(*case[3:6])
+        return t1[0] + JOINS[case[6]] + t2[0], tuple(t1[i] | t2[i] for i in (1, 2, 3))
+
+    def describe(self, case):
+        return self.build(case)[0]
+
+    def check(self, case):
+        text, constructed = self.build(case)
+        return judge_names(self, text, constructed)
 
 
 # --------------------------------------------------------------------------- history search
 
 DEEP = 'f(y)+2k+' + '(' * 150 + '1' + ')' * 150       # balanced, but too deep for the recursive grammar
-STRINGS_Q = ['x+y', 'x + y', 'X+y', 'f(x)', 'x', '2k', 'x+', 'f(x', '2x(', 'x y', 'x\ty', 'x +', DEEP]
+STRINGS_Q = ['x+y', 'x + y', 'X+y', 'f(x)', 'x', '2k', 'x+', 'f(x', '2x(', 'x y', 'x\ty', 'x +', DEEP,
+             'f(y))+2k', '[f(y), 2k)']      # closer never opened / opener closed by the wrong kind, both after names
 STRINGS_T = STRINGS_Q + ['x+\ty', 'f', 'sin(x)+sin(y)', '(x))', '']
 FULL_V = {'x': 2.0, 'y': 3.0, 'X': 5.0, 'f': 7.0, 'xy': 11.0}
 FULL_F = {'f': lambda t: t + 1, 'sin': math.sin}
@@ -201,6 +395,28 @@ ARRAY_STRS = ['[x, y]', '1e999', 'x+y', 'x']       # the strings on which the ar
 GRADE_STRS = ['f(x)', 'x+y', '[[1,2],[2,4]]^-1', 'ln(0)+[1,2]/0']     # graded in the quick tier too (see events)
 
 
+# the 'scopes' search: one string per kind mix, evaluated in scopes that differ in ONE respect from the reference scope
+# (V2, F2, S2): other values for the same variable names / other functions under the same names / other multipliers
+# for the same suffixes / the same names under the wrong kinds / the library's default scope / no arrays allowed
+SCOPE_STRS = ['f(x)+2k', 'sin(e)+2%', '[2k, 1/(x-2)]']      # the last one divides by zero at x = 2 (reference scope) only
+SCOPE_OPS = ['parse', 'eval2', 'evalaltv', 'evalaltf', 'evalalts', 'evalswap', 'evaldef', 'evaldim0', 'evalnosuffix']
+V2 = dict(FULL_V, e=math.e)
+F2 = dict(FULL_F)
+S2 = {'k': 1000.0, '%': 0.01}
+ALT_V = {'x': -4.0, 'y': 0.5, 'X': 1.5, 'f': -2.0, 'xy': 0.25, 'e': 3.0}
+ALT_F = {'f': lambda t: 10 * t, 'sin': lambda t: t - 1}
+ALT_S = {'k': 0.001, '%': 0.5}
+SWAP_V = {'f': 7.0, 'sin': 1.0, 'k': 2.0, '%': 1.0}
+SWAP_F = {'x': anyfunc, 'e': anyfunc, 'k': anyfunc}
+SWAP_S = {'x': 1.0, 'e': 1.0, 'f': 2.0, 'sin': 1.0}
+
+# the 'consumers' search: graders and samplers that combine the names of SEVERAL strings (limits and summand of a
+# SumGrader with a blacklisted function; expression lists; dependent samplers)
+SUM_INPUTS = [['f(0)', '3', 'n'], ['1', '3', 'n+sin(0)'], ['cos(0)', '3', 'n']]
+CONSUMER_STRS = ['f(0)', 'n+sin(0)']
+NEGPOW = '[[1,2],[3,4]]^-1'        # its value exists only while negative matrix powers are switched on (the default)
+
+
 def ARR_V():
     from mitxgraders.helpers.calc.math_array import MathArray
     return {'x': MathArray([1.0, 2.0]), 'y': MathArray([3.0, 4.0]), 'X': 5.0, 'f': 7.0, 'xy': 11.0}
@@ -214,8 +430,64 @@ class ParserCtx(object):
     pass
 
 
+# process-wide switches kept as plain class attributes of library classes (found generically, never by name): pristine
+# values, taken once per process before the first history
+_SWITCHES = {}
+
+
+def _switches():
+    if not _SWITCHES:
+        _SWITCHES['classes'] = libstate.library_classes()
+        _SWITCHES['pristine'] = libstate.class_scalars(_SWITCHES['classes'])
+    return _SWITCHES
+
+
+def restore_switches(snap=None):
+    sw = _switches()
+    libstate.restore_class_scalars(sw['pristine'] if snap is None else snap, sw['classes'])
+
+
+def switches_diff():
+    sw = _switches()
+    now = libstate.class_scalars(sw['classes'])
+    return tuple(sorted((k, repr(v)) for k, v in now.items() if sw['pristine'].get(k, libstate._MISSING) != v)) \
+        + tuple(sorted((k, 'removed') for k in sw['pristine'] if k not in now))
+
+
+# the scope dictionaries handed to the library by the events: a call must leave them as they were (a later call with the
+# same dictionary object would otherwise see another scope than a first call does)
+def _scope_dicts():
+    return {'FULL_V': FULL_V, 'FULL_F': FULL_F, 'FULL_S': FULL_S, 'MISS_V': MISS_V, 'V2': V2, 'F2': F2, 'S2': S2, 'ALT_V': ALT_V,
+            'ALT_F': ALT_F, 'ALT_S': ALT_S, 'SWAP_V': SWAP_V, 'SWAP_F': SWAP_F, 'SWAP_S': SWAP_S}
+
+
+_SCOPES0 = {}
+
+
+def scopes_changed():
+    """names of the scope dictionaries a call changed (they are put back)"""
+    if not _SCOPES0:
+        _SCOPES0.update({k: dict(d) for k, d in _scope_dicts().items()})
+    changed = []
+    for k, d in _scope_dicts().items():
+        if d != _SCOPES0[k]:
+            changed.append((k, sorted(set(d) ^ set(_SCOPES0[k]))))
+            d.clear()
+            d.update(_SCOPES0[k])
+    return changed
+
+
 def observe_call(op, s):
     """Executes one event against the currently installed shared parser; returns a comparable observation."""
+    scopes_changed()
+    obs = _observe_call(op, s)
+    changed = scopes_changed()
+    if changed:
+        return ('SCOPE-CHANGED', changed, obs)
+    return obs
+
+
+def _observe_call(op, s):
     try:
         if op == 'parse':
             p = X.parse(s)
@@ -238,6 +510,44 @@ def observe_call(op, s):
         if op == 'evalmiss':
             v, m = X.evaluator(s, MISS_V, {}, {})
             return ('val', repr(v)) + _meta(m)
+        if op == 'eval2':
+            v, m = X.evaluator(s, V2, F2, S2, max_array_dim=2)
+            return ('val', repr(v)) + _meta(m)
+        if op == 'evalaltv':
+            v, m = X.evaluator(s, ALT_V, F2, S2, max_array_dim=2)
+            return ('val', repr(v)) + _meta(m)
+        if op == 'evalaltf':
+            v, m = X.evaluator(s, V2, ALT_F, S2, max_array_dim=2)
+            return ('val', repr(v)) + _meta(m)
+        if op == 'evalalts':
+            v, m = X.evaluator(s, V2, F2, ALT_S, max_array_dim=2)
+            return ('val', repr(v)) + _meta(m)
+        if op == 'evalswap':
+            v, m = X.evaluator(s, SWAP_V, SWAP_F, SWAP_S)        # every name defined, but never as the kind it is used as
+            return ('val', repr(v)) + _meta(m)
+        if op == 'evaldef':
+            v, m = X.evaluator(s)                                  # every argument left at its default
+            return ('val', repr(v)) + _meta(m)
+        if op == 'evaldim0':
+            v, m = X.evaluator(s, ALT_V, F2, S2, max_array_dim=0)  # the array string evaluates, and is then refused
+            return ('val', repr(v)) + _meta(m)
+        if op == 'sumg':
+            def body(ch):
+                g = SumGrader(answers={'lower': '1', 'upper': '3', 'summand': 'n', 'summation_variable': 'n'},
+                              input_positions={'lower': 1, 'upper': 2, 'summand': 3},
+                              variables=['x'], user_functions={'f': lambda t: t + 1}, blacklist=['cos'])
+                return g(None, list(s))
+            ch, out = chooser.run_with(body)
+            return ('graded', repr(sorted(out.items())))
+        if op == 'gradenoneg':
+            def body(ch):
+                # a grader that switches negative matrix powers off while it evaluates (a process-wide switch of the array class)
+                g = MatrixGrader(answers='[[1,2],[3,4]]', negative_powers=False, max_array_dim=2, samples=1)
+                return g(None, s)
+            ch, out = chooser.run_with(body)
+            return ('graded', out['ok'], out['grade_decimal'])
+        if op == 'getvars':
+            return ('vars', sorted(FormulaGrader.get_used_vars(list(s))))
         if op == 'grade':
             def body(ch):
                 # every valid string of the alphabet is an accepted answer, so that the post-evaluation checks of a
@@ -278,11 +588,31 @@ class ParserHistory(BFSFamily):
             self.rule = ('explicit-state search over call histories on the shared parser: events = {parse, eval, grade with a '
                          'MatrixGrader that accepts the string} x %r; to closure; transition oracle = same call on a brand-new '
                          'parser in the pristine library state' % (GRADE_STRS,))
+        if mode == 'scopes':
+            self.name = 'parser_history_scopes_bfs'
+            self.rule = ('explicit-state search over call histories on the shared parser: events = %r x %r (scopes that '
+                         'differ from one reference scope in the VALUES of the variables only / the function OBJECTS only / '
+                         'the suffix multipliers only / the KIND under which each name is defined / all-default arguments / '
+                         'max_array_dim=0); to closure; transition oracle = same call on a brand-new parser'
+                         % (SCOPE_OPS, SCOPE_STRS))
+        if mode == 'switches':
+            self.name = 'parser_history_switches_bfs'
+            self.rule = ('explicit-state search over call histories: the negative matrix power %r parsed, evaluated directly, graded '
+                         'by a MatrixGrader with negative_powers=False (refused: the call raises while the process-wide switch of '
+                         'the array class is off) and by one with the default; to closure; state includes every scalar class '
+                         'attribute of the library; transition oracle = same call in the pristine process state' % NEGPOW)
+        if mode == 'consumers':
+            self.name = 'parser_history_consumers_bfs'
+            self.rule = ('explicit-state search over call histories on the shared parser: events = SumGrader call (limits + '
+                         'summand, a blacklisted function) on %r, get_used_vars of a pair, DependentSampler, parse, eval on %r; '
+                         'to closure; transition oracle = same call on a brand-new parser; state invariant = cached sets equal '
+                         'by-construction sets' % (SUM_INPUTS, CONSUMER_STRS))
 
     def setup(self, tier):
         self.tier = tier
         self.fresh = {}
         libstate.ensure_snapshot()
+        _switches()
 
     def events(self, tier):
         if tier == 'quick':
@@ -303,12 +633,24 @@ class ParserHistory(BFSFamily):
             for s2 in GRADE_STRS:
                 for op in ['parse', 'eval', 'grade']:
                     evs.append((op, s2))
+        if self.mode == 'scopes':
+            deep = tier != 'quick'
+            evs = [(op, s2) for s2 in SCOPE_STRS + (['x', '2k+x'] if deep else [])
+                   for op in SCOPE_OPS + (['evalmiss', 'evalinf'] if deep else [])]
+        if self.mode == 'consumers':
+            deep = tier != 'quick'
+            evs = [(op, s2) for s2 in CONSUMER_STRS + (['3'] if deep else []) for op in ['parse', 'eval', 'dep']]
+            evs += [('sumg', tuple(t)) for t in SUM_INPUTS + ([['1', 'f(2)', 'n']] if deep else [])]
+            evs += [('getvars', tuple(CONSUMER_STRS)), ('getvars', tuple(reversed(CONSUMER_STRS)))]
+        if self.mode == 'switches':
+            evs = [('parse', NEGPOW), ('eval', NEGPOW), ('gradenoneg', NEGPOW), ('gradenoneg', '[[1,2],[3,4]]'), ('grade', NEGPOW)]
         return evs
 
     def build(self, hist):
         # whatever earlier histories of this worker left in module-level / class-level containers or function caches of the
         # library is undone first, so that a deviation is attributed to the history that causes it
         libstate.restore_library_state()
+        restore_switches()
         ctx = ParserCtx()
         ctx.parser = X.MathParser()
         X.PARSER = ctx.parser
@@ -324,19 +666,28 @@ class ParserHistory(BFSFamily):
                               else ('not-an-expression', type(v).__name__, str(v))) for k, v in p.cache.items()))
         other = _canon({a: b for a, b in vars(p).items() if a not in ('cache', 'grammar')})
         # process-wide memory outside the parser (module-level containers, function caches) is part of the state too
-        return (cache, other, libstate.library_state_diff(_canon))
+        return (cache, other, libstate.library_state_diff(_canon), switches_diff())
 
     def fresh_obs(self, ev):
         if ev not in self.fresh:
+            sw = _switches()
+            current = libstate.class_scalars(sw['classes'])
             with libstate.pristine_library():
-                X.PARSER = X.MathParser()
-                self.fresh[ev] = observe_call(*ev)
+                restore_switches()
+                try:
+                    X.PARSER = X.MathParser()
+                    self.fresh[ev] = observe_call(*ev)
+                finally:
+                    restore_switches(current)
         return self.fresh[ev]
 
     def check_transition(self, hist, ev, ctx):
         exp = self.fresh_obs(ev)
         X.PARSER = ctx.parser
         got = ctx.obs[-1]
+        if got and got[0] == 'SCOPE-CHANGED':
+            return viol('history:%s-changes-the-scope-passed-in' % ev[0],
+                        '%s(%r) changed the scope dictionaries it was given: %r' % (ev[0], ev[1], got[1]))
         if got != exp:
             return viol('history:%s-differs-from-fresh-parser' % ev[0],
                         '%s(%r) after %d earlier calls gives %r; a fresh parser gives %r' % (ev[0], ev[1], len(hist), got, exp),
@@ -366,7 +717,12 @@ def families(tier):
     return [
         NameSets('name_tokens', NAME_TOKENS, {'quick': 4, 'thorough': 5}),
         NameSets('brace_tokens', BRACE_TOKENS, {'quick': 5, 'thorough': 6}),
+        NameSets('operator_tokens', OPERATOR_TOKENS, {'quick': 4, 'thorough': 5}),
         ExtraNames(),
+        Derivations(),
         ParserHistory(),
         ParserHistory('grading'),
+        ParserHistory('scopes'),
+        ParserHistory('consumers'),
+        ParserHistory('switches'),
     ]
